@@ -104,7 +104,7 @@ def finishedTask (t : TaskSt) (o : Outcome) : TaskSt :=
   dropRef (taskDropByExecutor
     { t with word := TaskState.finishRunning (TaskState.unschedule t.word), polls := t.polls + 1,
              script := t.script.drop 1, futDrops := t.futDrops + 1,
-             storage := if o = .panic then .resultPanic else .resultOk })
+             storage := if o.panics then .resultPanic else .resultOk })
 
 /-- the task after `Task::run` found it cancelled: `Task::drop`, reference released -/
 def droppedTask (t : TaskSt) : TaskSt :=
@@ -138,7 +138,24 @@ theorem runTask_ready (t : TaskSt) (hc : t.word.notCancelled = true) (hb : t.wor
     (o : Outcome) (r : List Outcome) (hs : t.script = o :: r) (ho : o = .ready ∨ o = .panic) :
     runTask t = (finishedTask t o, .finished,
                  if t.word.hasWaker && t.word.notSettingWaker then t.slot else none) := by
-  rcases ho with ho | ho <;> subst ho <;> simp [runTask, hc, hb, hs, finishedTask]
+  rcases ho with ho | ho <;> subst ho <;> simp [runTask, hc, hb, hs, finishedTask, Outcome.panics]
+
+/-- the future wakes its own task and returns Ready / panics in the same poll -/
+theorem runTask_wakeReady (t : TaskSt) (hc : t.word.notCancelled = true) (hb : t.word.completed = false)
+    (o : Outcome) (r : List Outcome) (hs : t.script = o :: r) (ho : o = .wakeReady ∨ o = .wakePanic) :
+    runTask t = (finishedTask t o, .finishedWoke,
+                 if t.word.hasWaker && t.word.notSettingWaker then t.slot else none) := by
+  rcases ho with ho | ho <;> subst ho <;> simp [runTask, hc, hb, hs, finishedTask, Outcome.panics]
+
+/-- the task with one more waker clone (made during the poll) -/
+def cloneInc (t : TaskSt) : TaskSt := { t with word := TaskState.inc t.word, wakers := t.wakers + 1 }
+
+/-- the future clones its waker and returns Ready in the same poll -/
+theorem runTask_cloneReady (t : TaskSt) (hc : t.word.notCancelled = true) (hb : t.word.completed = false)
+    (r : List Outcome) (hs : t.script = .cloneReady :: r) :
+    runTask t = (finishedTask (cloneInc t) .cloneReady, .finished,
+                 if t.word.hasWaker && t.word.notSettingWaker then t.slot else none) := by
+  simp [runTask, hc, hb, hs, finishedTask, Outcome.panics, cloneInc]
 
 set_option hygiene false in
 /-- split task `t` and invariant `h` into explicit fields, decide the flags, finish by `simp`/`omega` -/
@@ -156,12 +173,16 @@ theorem clonedTask_inv (t : TaskSt) (h : TInv true t) : TInv true (clonedTask t)
   task_tac [polledTask, clonedTask]
 
 theorem finishedTask_inv (t : TaskSt) (o : Outcome) (h : TInv true t) : TInv false (finishedTask t o) := by
-  by_cases ho : o = .panic
-  · subst ho
-    task_tac [finishedTask]
-  · have e : finishedTask t o = finishedTask t .ready := by simp [finishedTask, ho]
+  cases ho : o.panics
+  · have e : finishedTask t o = finishedTask t .ready := by unfold finishedTask; rw [ho]; rfl
     rw [e]
-    task_tac [finishedTask]
+    task_tac [finishedTask, Outcome.panics]
+  · have e : finishedTask t o = finishedTask t .panic := by unfold finishedTask; rw [ho]; rfl
+    rw [e]
+    task_tac [finishedTask, Outcome.panics]
+
+theorem cloneInc_inv (t : TaskSt) (h : TInv true t) : TInv true (cloneInc t) := by
+  task_tac [cloneInc]
 
 theorem droppedTask_inv (t : TaskSt) (h : TInv true t) : TInv false (droppedTask t) := by
   task_tac [droppedTask]
